@@ -23,6 +23,7 @@ type omOp struct {
 	Mod  int      `json:"mod,omitempty"` // Filter: keep values with v%Mod != 0 ; Map: add Mod
 	Inner string  `json:"inner,omitempty"` // re-entrant op inside a callback: set | remove
 	Desc bool     `json:"desc,omitempty"`  // Sort direction
+	Less string   `json:"less,omitempty"`  // Sort: "" = by key, "len" = by key length, "last" = by last byte (both leave ties between distinct keys)
 }
 
 type omCase struct {
@@ -78,6 +79,17 @@ func (m *omModel) json() string {
 
 var omAlphabet = []string{"a", "b", "c", "d", "A", "", "é", "k\"q"}
 
+// omWide is used by "wide" histories: enough distinct keys for library
+// routines to leave their small-input fast paths (sort.Slice is an insertion
+// sort, hence stable, up to 12 elements).
+var omWide = func() []string {
+	out := append([]string(nil), omAlphabet...)
+	for i := 0; i < 24; i++ {
+		out = append(out, fmt.Sprintf("k%02d%s", i, strings.Repeat("x", i%3)))
+	}
+	return out
+}()
+
 func genOmCase(r *Rand) omCase {
 	n := 1 + r.Intn(8)
 	if r.Chance(1, 8) {
@@ -85,9 +97,20 @@ func genOmCase(r *Rand) omCase {
 	}
 	nkeys := 2 + r.Intn(len(omAlphabet)-1)
 	keys := omAlphabet[:nkeys]
+	wide := r.Chance(1, 6)
+	if wide {
+		keys = omWide
+		n = 25 + r.Intn(40)
+	}
 	val := 0
 	next := func() int { val++; return val }
 	ops := make([]omOp, 0, n)
+	if wide {
+		// start from a well-filled map
+		for _, k := range Shuffled(r, omWide)[:14+r.Intn(12)] {
+			ops = append(ops, omOp{Op: "set", Key: k, Val: next()})
+		}
+	}
 	kinds := []string{"set", "set", "set", "remove", "remove", "get", "has", "len", "at", "values", "iterate", "map", "filter", "sort", "equal", "frommap", "marshal", "unmarshal", "unmarshal_into", "iterate_re", "map_re", "filter_re"}
 	for i := 0; i < n; i++ {
 		k := Pick(r, kinds)
@@ -105,6 +128,7 @@ func genOmCase(r *Rand) omCase {
 			op.Mod = 2 + r.Intn(3)
 		case "sort":
 			op.Desc = r.Bool()
+			op.Less = Pick(r, []string{"", "", "len", "last"})
 		case "frommap":
 			m := 1 + r.Intn(5)
 			seen := map[string]bool{}
@@ -220,7 +244,7 @@ func omObserve(m *orderedmap.Map[string, int], ref *omModel, strict bool) string
 			return fmt.Sprintf("Values()[%d]=%d, model %d", i, vs[i], p.v)
 		}
 	}
-	for _, k := range omAlphabet {
+	for _, k := range omWide {
 		if ref.idx(k) < 0 && m.Has(k) {
 			return fmt.Sprintf("Has(%q)=true for a dead key", k)
 		}
@@ -321,8 +345,21 @@ func runOmCase(c omCase) (key, what string, step int, ex *Exec) {
 				keep(nm, nref)
 			case "sort":
 				less := func(a, b string) bool { return a < b }
+				switch op.Less {
+				case "len":
+					less = func(a, b string) bool { return len(a) < len(b) }
+				case "last":
+					last := func(s string) byte {
+						if s == "" {
+							return 0
+						}
+						return s[len(s)-1]
+					}
+					less = func(a, b string) bool { return last(a) < last(b) }
+				}
 				if op.Desc {
-					less = func(a, b string) bool { return a > b }
+					inner := less
+					less = func(a, b string) bool { return inner(b, a) }
 				}
 				m.Sort(less)
 				sort.SliceStable(ref.ps, func(a, b int) bool { return less(ref.ps[a].k, ref.ps[b].k) })
